@@ -228,6 +228,11 @@ class World:
                 self.faults.hit("sink_devfull_enospc")
                 return False, None, e
             return True, None, None
+        if fault and fault.get("at_frac") is not None:
+            # the fault is placed relative to the length of this deck's last complete save (write calls): "near the end of the archive" is
+            # where the parts that were edited last are serialised.  Deterministic: the count is part of the run's own history.
+            n_prev = getattr(deck, "last_writes", None)
+            fault = dict(fault, at=max(1, int(round(fault["at_frac"] * n_prev))) if n_prev else fault.get("at", 1))
         if sink_kind == "reused":
             # the caller keeps ONE seekable stream and saves into it again and again without rewinding: every save appends
             # a complete archive; a zip reader takes the last one
@@ -250,6 +255,7 @@ class World:
         if fault and sink.fired:
             # a fault fired and save() returned normally: the call swallowed an I/O error
             return True, sink.image(), "swallowed"
+        deck.last_writes = sink.writes
         return True, sink.image(), None
 
 
